@@ -5,7 +5,7 @@ applied to a scratch worktree of /repo (/tmp/repo-mut) and the checks run from a
 VIOLATION line.  Which checks run for a change is decided by the files it touches (plus the
 property it was written for).   usage: neurun.py [name ...]    (default: all)"""
 import glob, json, os, re, subprocess, sys, time
-SNAP, RM = "/tmp/verif-snap", "/tmp/repo-mut"
+SNAP, RM = os.environ.get("NEU_SNAP", "/tmp/verif-snap"), os.environ.get("NEU_RM", "/tmp/repo-mut")   # (two instances can run side by side)
 RULES = [
     (r"^filter/", ["C07", "C08"]),
     (r"^faults/|^grpc/faults|^controllers/fault", ["C18"]),
